@@ -3,7 +3,16 @@
 // the code as it is now -- that the hand-written model coq/PacketModel.v says what the code says
 // (coq/Properties/Gen_Packet.v).
 //
-//	gotrans -repo /repo -out /verif/coq/gen/PacketGen.v
+//	gotrans -repo /repo -out /verif/coq/gen/PacketGen.v \
+//	        [-out2 /verif/coq/gen/PacketGen2.v] [-out3 /verif/coq/gen/RegistersGen.v]
+//
+// -out  : constants, ExpectedResponseLength, constructor validation, CRC16, the parsers (stages 1-3)
+// -out2 : the encoders (Bytes / bytes / len methods, MBAPHeader.bytes, putReadRequestBytes),
+//
+//	CoilsToBytes, isBitSet (stage 4)
+//
+// -out3 : registers.go (stage 5)
+// A stage whose flag is absent is not translated (and cannot make the exit status 3).
 //
 // Standard library only (go/parser, go/ast, go/token, go/constant).  Deterministic output.
 // Exit status: 0 = everything in scope translated, 3 = some function is outside the fragment (the
@@ -40,9 +49,31 @@ type translator struct {
 	stack map[string]bool
 }
 
+// fileOf says which output file a function belongs to: 1 = PacketGen.v (constants, lengths,
+// constructors, CRC16, parsers), 2 = PacketGen2.v (encoders, CoilsToBytes, isBitSet),
+// 3 = RegistersGen.v (registers.go).
+func fileOf(fd *funcDecl) int {
+	if fd.file == "registers.go" {
+		return 3
+	}
+	n := fd.name
+	if k := strings.LastIndex(n, "."); k >= 0 {
+		n = n[k+1:]
+	}
+	if fd.recv != "" && (n == "Bytes" || n == "bytes" || n == "len") {
+		return 2
+	}
+	if fd.recv == "" && (n == "putReadRequestBytes" || n == "CoilsToBytes" || n == "isBitSet") {
+		return 2
+	}
+	return 1
+}
+
 func main() {
 	repo := flag.String("repo", "/repo", "root of the go-modbus-client working tree")
-	out := flag.String("out", "", "output .v file (default: stdout)")
+	out := flag.String("out", "", "output .v file for stages 1-3 (default: stdout)")
+	out2 := flag.String("out2", "", "output .v file for the encoders (stage 4); not translated if empty")
+	out3 := flag.String("out3", "", "output .v file for registers.go (stage 5); not translated if empty")
 	flag.Parse()
 
 	p, err := loadPkg(filepath.Join(*repo, "packet"))
@@ -67,8 +98,9 @@ func main() {
 	emitArrays(&b, p)
 
 	// targets in file / source order
+	want := map[int]bool{1: true, 2: *out2 != "", 3: *out3 != ""}
 	for _, fd := range p.funcL {
-		if mode, ok := isTarget(fd); ok {
+		if mode, ok := isTarget(fd); ok && fileOf(fd) == 1 {
 			tr.translate(fd, mode)
 		}
 	}
@@ -89,26 +121,55 @@ func main() {
 			tr.promoted(n, m)
 		}
 	}
-	b.WriteString("\n(* ---------- functions ---------- *)\n")
+	for _, file := range []int{2, 3} {
+		if !want[file] {
+			continue
+		}
+		for _, fd := range p.funcL {
+			if mode, ok := isTarget(fd); ok && fileOf(fd) == file {
+				tr.translate(fd, mode)
+			}
+		}
+	}
 	failed := 0
+	bodies := map[int]*strings.Builder{1: &b, 2: {}, 3: {}}
+	bodies[2].WriteString(header2)
+	bodies[3].WriteString(header3)
+	counts := map[int]int{}
+	b.WriteString("\n(* ---------- functions ---------- *)\n")
 	for _, s := range tr.order {
-		b.WriteString("\n" + s.text)
+		if !want[s.file] {
+			continue // reached only while looking for callees that write; not part of this run
+		}
+		bodies[s.file].WriteString("\n" + s.text)
+		counts[s.file]++
 		if s.untranslated != "" {
 			failed++
 			fmt.Fprintf(os.Stderr, "gotrans: %s: UNTRANSLATED: %s\n", s.goName, s.untranslated)
 		}
 	}
-	b.WriteString("\n(* ---------- summary ---------- *)\n")
-	fmt.Fprintf(&b, "(* %d definitions, %d untranslated *)\n", len(tr.order), failed)
-
-	if *out == "" {
-		fmt.Print(b.String())
-	} else {
-		if err := os.MkdirAll(filepath.Dir(*out), 0o755); err != nil {
+	for file, path := range map[int]string{1: *out, 2: *out2, 3: *out3} {
+		if !want[file] {
+			continue
+		}
+		sb := bodies[file]
+		sb.WriteString("\n(* ---------- summary ---------- *)\n")
+		bad := 0
+		for _, s := range tr.order {
+			if s.file == file && s.untranslated != "" {
+				bad++
+			}
+		}
+		fmt.Fprintf(sb, "(* %d definitions, %d untranslated *)\n", counts[file], bad)
+		if path == "" {
+			fmt.Print(sb.String())
+			continue
+		}
+		if err := os.MkdirAll(filepath.Dir(path), 0o755); err != nil {
 			fmt.Fprintln(os.Stderr, "gotrans:", err)
 			os.Exit(1)
 		}
-		if err := os.WriteFile(*out, []byte(b.String()), 0o644); err != nil {
+		if err := os.WriteFile(path, []byte(sb.String()), 0o644); err != nil {
 			fmt.Fprintln(os.Stderr, "gotrans:", err)
 			os.Exit(1)
 		}
@@ -154,6 +215,61 @@ const header = `(* GENERATED by /verif/gotrans from /repo/packet/*.go, /repo/cli
      dropped. *)
 From Coq Require Import String.
 Require Import MB.GoSem MB.CrcModel MB.PacketModel MB.GenPrelude.
+Open Scope N_scope.
+`
+
+const header2 = `(* GENERATED by /verif/gotrans (-out2) from /repo/packet/*.go -- do not edit.
+   The encoders: MBAPHeader.bytes, putReadRequestBytes, every Bytes() / bytes() / len() method of the
+   request, response and exception types, CoilsToBytes, isBitSet.  Regenerated on every check;
+   coq/Properties/Gen_Packet2.v proves that every encoder below produces exactly the bytes the
+   hand-written model (PacketModel: req_bytes_tcp/rtu, resp_bytes_tcp/rtu, exc_bytes_tcp/rtu) says.
+
+   In addition to the assumptions in the header of PacketGen.v:
+   * a slice that a function creates (make, a nil var) or receives and writes into is a list N
+     (GenPrelude2): x[i] = v is lset (Panic unless 0 <= i < len), x[i] is lget, a write through a
+     window copy(x[a:b], s) / PutUint16(x[a:b], v) / f(x[a:b]) reads the window with lsub (Panic unless
+     0 <= a <= b <= len -- the capacity of such a list is its length, which is what make gives; a
+     window handed to a callee cannot be extended by the callee), computes the new content and puts
+     it back with lsplice.  copy copies min(len dst, len src) bytes (gcopy).  binary.BigEndian.
+     PutUint16(w, v) is lput16: Panic if len w < 2, else w[0], w[1] := byte(v >> 8), byte(v).
+   * a function that writes into its []byte parameter takes the content and returns the new
+     content; a Go variable assigned from such a call (bytes := r.X.bytes(result)) denotes the
+     same slice and is resolved at translation time.  Writing through a re-slice of an input is
+     outside the fragment.
+   * for i := a; i < b; i++ with a bound that the body does not change is zfor (structural
+     recursion on the iteration count).
+   * c << n with c an untyped constant and n not constant has the type of its context (Go spec);
+     a negative count of a signed type panics (zshl8).
+   * whether a []byte field is nil (ReadServerIDResponse.AdditionalData != nil) is a separate
+     boolean parameter r_<field>_isnil of the methods of that struct. *)
+From Coq Require Import String.
+Require Import MB.GoSem MB.CrcModel MB.PacketModel MB.GenPrelude MB.GenPrelude2 MB.gen.PacketGen.
+Open Scope N_scope.
+`
+
+const header3 = `(* GENERATED by /verif/gotrans (-out3) from /repo/packet/registers.go -- do not edit.
+   Regenerated on every check; coq/Properties/Gen_Registers.v proves that every definition below
+   equals the hand-written model coq/RegistersModel.v (errors compared as "some error").
+
+   In addition to the assumptions in the headers of PacketGen.v / PacketGen2.v:
+   * the receiver is its flattened fields; Registers.data, which the methods re-slice and index, is
+     a GoSem.slice (visible bytes + spare capacity).
+   * uint32 / uint64 are N wrapped at 2^32 / 2^64; int8 .. int64 are Z, a conversion to them wraps
+     into the signed range (sint); float32 / float64 results are their bit patterns
+     (math.Float32frombits / Float64frombits are the identity on patterns).
+   * binary.{Big,Little}Endian.Uint16/32/64(b) on a list b: Panic if b is too short, else the
+     combination of its first 2/4/8 bytes (zbe16 .. zle64).
+   * []byte{a, b, ...} is the list [a; b; ...].
+   * a method with a pointer receiver that assigns a field and returns the receiver (WithByteOrder)
+     yields the updated struct value; that the caller's object is changed in place is not
+     represented.
+   * strings.Builder is the list of bytes written so far: new(strings.Builder) = [], Grow(n) only
+     panics for n < 0 (zgrow), fmt.Fprintf(b, "%c", rune(x)) for a byte x appends the UTF-8 encoding
+     of the code point x (utf8_rune), b.String() is the list; a string RESULT is its bytes.
+   * for _, x := range l { if c { break }; body } is a fold_left with a "stopped" flag. *)
+From Coq Require Import String.
+Require Import MB.GoSem MB.CrcModel MB.PacketModel MB.RegistersSpec MB.RegistersModel.
+Require Import MB.GenPrelude MB.GenPrelude2 MB.GenPrelude3.
 Open Scope N_scope.
 `
 
@@ -270,9 +386,9 @@ func (tr *translator) passesOn(body *ast.BlockStmt, name string) bool {
 
 func coqType(t *typ, isSlice bool) string {
 	switch t.k {
-	case kInt:
+	case kInt, kI8, kI16, kI32, kI64:
 		return "Z"
-	case kU8, kU16:
+	case kU8, kU16, kU32, kU64, kF32, kFloat:
 		return "N"
 	case kBool:
 		return "bool"
@@ -283,6 +399,8 @@ func coqType(t *typ, isSlice bool) string {
 		return "list N"
 	case kBools:
 		return "list bool"
+	case kString:
+		return "list N" // only as a RESULT: the bytes of the Go string
 	case kArray:
 		return "list N"
 	}
@@ -349,18 +467,35 @@ func (tr *translator) translate(fd *funcDecl, mode string) *fsig {
 				f.env.vars[rname] = rv
 			}
 		}
+		byteParams := map[string]bool{}
+		for _, fl := range fd.decl.Type.Params.List {
+			if t := p.typeOfExprOpt(fl.Type); t != nil && t.k == kBytes {
+				for _, nm := range fl.Names {
+					byteParams[nm.Name] = true
+				}
+			}
+		}
+		written := map[string]bool{}
+		if mode != "accepts" && len(byteParams) > 0 {
+			for _, w := range tr.writes(fd, fd.decl.Body.List, func(n string) bool { return byteParams[n] }) {
+				written[w] = true
+			}
+		}
 		for _, fl := range fd.decl.Type.Params.List {
 			t := p.typeOfExpr(fl.Type)
 			for _, nm := range fl.Names {
 				pr := param{name: nm.Name, coq: f.fresh(nm.Name), t: t}
-				if t.k == kBytes && mode != "accepts" {
-					pr.isSlice = usesAsSlice(fd.decl.Body, nm.Name) || tr.passesOn(fd.decl.Body, nm.Name)
+				if written[nm.Name] {
+					pr.isBuf = true
+				} else if t.k == kBytes && mode != "accepts" {
+					pr.isSlice = usesAsSlice(fd.decl.Body, nm.Name) || tr.passesOn(fd.decl.Body, nm.Name) ||
+						tr.storedInSliceField(fd.decl.Body, nm.Name)
 				}
 				if coqType(t, pr.isSlice) == "" {
 					p.bad(fl, "parameter of type %s", t)
 				}
 				sig.params = append(sig.params, pr)
-				f.env.vars[nm.Name] = &val{t: t, term: pr.coq, isSlice: pr.isSlice}
+				f.env.vars[nm.Name] = &val{t: t, term: pr.coq, isSlice: pr.isSlice, buf: pr.isBuf}
 			}
 		}
 		if fd.decl.Type.Results != nil {
@@ -385,6 +520,11 @@ func (tr *translator) translate(fd *funcDecl, mode string) *fsig {
 		nres := len(sig.results)
 		lastErr := nres > 0 && sig.results[nres-1].k == kError
 		switch {
+		case len(written) > 0:
+			if len(written) != 1 || !(nres == 0 || (nres == 1 && sig.results[0].k == kBytes)) {
+				p.bad(fd.decl, "a function that writes into a slice parameter must have one such parameter and return nothing or that slice")
+			}
+			sig.shape, sig.coqResT = "mut", "list N"
 		case mode == "accepts":
 			if !(nres == 2 && lastErr) {
 				p.bad(fd.decl, "constructor does not return (value, error)")
@@ -421,12 +561,18 @@ func (tr *translator) translate(fd *funcDecl, mode string) *fsig {
 			if tr.returnsValueWithError(fd) {
 				sig.shape = "pair"
 			}
+			if ct := coqType(sig.results[0], false); ct != "" {
+				sig.coqResT = ct
+			}
 		case nres == 1:
 			sig.shape = "pure"
-			if canPanic(fd.decl.Body) {
+			if canPanic(fd.decl.Body) || tr.callsMonadic(fd) {
 				sig.shape = "resv"
 			}
 			sig.coqResT = coqType(sig.results[0], false)
+			if rt := sig.results[0]; sig.coqResT == "" && (rt.k == kStruct || (rt.k == kPtr && rt.elem.k == kStruct)) {
+				sig.coqResT = "?" // a struct: its model type is noted at the first return
+			}
 			if sig.coqResT == "" {
 				p.bad(fd.decl, "result of type %s", sig.results[0])
 			}
@@ -441,6 +587,9 @@ func (tr *translator) translate(fd *funcDecl, mode string) *fsig {
 		}
 		f.monadic = sig.shape != "pure" && sig.shape != "accepts"
 		body = f.stmts(fd.decl.Body.List, func() code {
+			if sig.shape == "mut" && len(sig.results) == 0 {
+				return f.retMut(fd.decl)
+			}
 			p.bad(fd.decl, "control reaches the end of the function")
 			return nil
 		})
@@ -450,6 +599,32 @@ func (tr *translator) translate(fd *funcDecl, mode string) *fsig {
 	}()
 	tr.finish(sig, fd, body)
 	return sig
+}
+
+// storedInSliceField: is the parameter the value of a struct field that the model keeps as a slice?
+func (tr *translator) storedInSliceField(body *ast.BlockStmt, name string) bool {
+	found := false
+	ast.Inspect(body, func(n ast.Node) bool {
+		lit, ok := n.(*ast.CompositeLit)
+		if !ok {
+			return true
+		}
+		t := tr.p.typeOfExprOpt(lit.Type)
+		if t == nil || t.k != kStruct {
+			return true
+		}
+		for _, el := range lit.Elts {
+			if kv, ok := el.(*ast.KeyValueExpr); ok {
+				k, ok1 := kv.Key.(*ast.Ident)
+				v, ok2 := kv.Value.(*ast.Ident)
+				if ok1 && ok2 && v.Name == name && tr.p.sliceFields[t.name+"."+k.Name] {
+					found = true
+				}
+			}
+		}
+		return true
+	})
+	return found
 }
 
 // rollback forgets the untranslated definitions added since mark (they were only probed for a
@@ -499,22 +674,33 @@ func (tr *translator) recvValue(f *ftrans, sname string, sig *fsig) *val {
 	build = func(name string) *val {
 		v := &val{t: &typ{k: kStruct, name: name}, fields: map[string]*val{}}
 		for _, fl := range tr.p.structs[name].fields {
-			if fl.embedded && fl.typ.k == kStruct {
-				v.fields[fl.name] = build(fl.typ.name)
+			if fl.typ.k == kStruct {
+				v.fields[fl.name] = build(fl.typ.name) // embedded or not: its fields are leaves too
 				continue
 			}
-			ct := coqType(fl.typ, false)
+			if fl.typ.k == kString {
+				v.fields[fl.name] = &val{t: tString, str: true} // texts are dropped
+				continue
+			}
+			isSlice := fl.typ.k == kBytes && tr.p.sliceFields[name+"."+fl.name]
+			ct := coqType(fl.typ, isSlice)
 			if ct == "" {
 				tr.p.bad(nil, "receiver field %s.%s of type %s", name, fl.name, fl.typ)
 			}
-			pr := param{name: fl.name, coq: "r_" + fl.name, t: fl.typ}
+			pr := param{name: fl.name, coq: "r_" + fl.name, t: fl.typ, isSlice: isSlice}
 			for _, e := range sig.recvFields {
 				if e.coq == pr.coq {
 					tr.p.bad(nil, "receiver has two fields named %s", fl.name)
 				}
 			}
 			sig.recvFields = append(sig.recvFields, pr)
-			v.fields[fl.name] = &val{t: fl.typ, term: pr.coq}
+			fv := &val{t: fl.typ, term: pr.coq, isSlice: isSlice}
+			if tr.p.nilCompared[name+"."+fl.name] {
+				np := param{name: fl.name + "_isnil", coq: "r_" + fl.name + "_isnil", t: tBool}
+				sig.recvFields = append(sig.recvFields, np)
+				fv.nilTerm = np.coq
+			}
+			v.fields[fl.name] = fv
 		}
 		return v
 	}
@@ -554,6 +740,10 @@ func (tr *translator) promoted(sname string, m *funcDecl) {
 }
 
 func (tr *translator) finish(sig *fsig, fd *funcDecl, body code) {
+	sig.file = 1
+	if fd.decl != nil {
+		sig.file = fileOf(fd)
+	}
 	var sb strings.Builder
 	fmt.Fprintf(&sb, "(* %s  (%s) *)\n", sig.goName, fd.file)
 	if sig.untranslated != "" {
